@@ -1696,14 +1696,17 @@ impl CPU {
 
             // LDIR
             0xEDB0 => {
-                // TODO : When the BC is set to 0 prior to instruction execution, the instruction loops through 64 KB.
-                while self.reg.get_bc() != 0 {
+                // When BC is 0 prior to instruction execution, the instruction loops through 64 KB.
+                loop {
                     self.ldi();
                     let bc = self.reg.get_bc();
                     self.reg.flags.h = false;
                     self.reg.flags.p = bc != 0;
                     self.reg.flags.n = false;
                     // TODO : return cycles * number of executions
+                    if bc == 0 {
+                        break;
+                    }
                 }
             }
 
@@ -1718,14 +1721,17 @@ impl CPU {
 
             // LDDR
             0xEDB8 => {
-                // TODO : When the BC is set to 0 prior to instruction execution, the instruction loops through 64 KB.
-                while self.reg.get_bc() != 0 {
+                // When BC is 0 prior to instruction execution, the instruction loops through 64 KB.
+                loop {
                     self.ldd();
                     let bc = self.reg.get_bc();
                     self.reg.flags.h = false;
                     self.reg.flags.p = bc != 0;
                     self.reg.flags.n = false;
                     // TODO : return cycles * number of executions
+                    if bc == 0 {
+                        break;
+                    }
                 }
             }
 
@@ -1734,10 +1740,10 @@ impl CPU {
 
             // CPIR
             0xEDB1 => {
-                // TODO : When the BC is set to 0 prior to instruction execution, the instruction loops through 64 KB.
-                while self.reg.get_bc() != 0 {
+                // When BC is 0 prior to instruction execution, the instruction loops through 64 KB.
+                loop {
                     self.cpi();
-                    if self.reg.flags.z {
+                    if self.reg.flags.z || self.reg.get_bc() == 0 {
                         break;
                     }
                     // TODO : return cycles * number of executions
@@ -1749,9 +1755,9 @@ impl CPU {
 
             // CPDR
             0xEDB9 => {
-                while self.reg.get_bc() != 0 {
+                loop {
                     self.cpd();
-                    if self.reg.flags.z {
+                    if self.reg.flags.z || self.reg.get_bc() == 0 {
                         break;
                     }
                     // TODO : return cycles * number of executions
